@@ -377,6 +377,13 @@ def enc_input(v):
         base[22] = val
         return base, ['192.168.7.0/24']
     base = {1: 0, 2: [(2, [65001])]}
+    if sub == 'pmsievpn':
+        q = u['p']
+        base[14] = {'afi_safi': (25, 70), 'nexthop': '10.0.0.9', 'nlri': [{'type': 3, 'value': {'rd': '172.16.0.1:5904', 'eth_tag_id': 0, 'ip': '192.168.0.1'}}]}
+        base[16] = [[780, u['encap']]] if u['form'] == 'list' else ['encapsulation:%d' % u['encap']]
+        base[22] = {'mpls_label': [q['label']], 'tunnel_type': q['ttype'], 'leaf_info_required': q['leaf'],
+                    'tunnel_id': ip_any(bytes(q['id'])) if q['id'] else None}
+        return base, []
     if sub == 'srte':
         val = {'afi_safi': (u['afi'], 73), 'nexthop': ip_any(bytes(u['nh'])) if u['nh'] else '',
                'nlri': {'distinguisher': u32(u['dist']), 'color': u32(u['color']), 'endpoint': ip_any(bytes(u['ep']))}}
